@@ -49,6 +49,13 @@ type Config struct {
 	FreeRefs bool
 	// CaseNames uses rule names that differ only by letter case.
 	CaseNames bool
+	// DigitNames uses rule names that are prefixes of each other followed by
+	// digits (A, A1, A11, ...): names derived from rule name + a number collide.
+	DigitNames bool
+	// LongLits allows literals of up to eight characters.
+	LongLits bool
+	// BigClasses allows character classes listing nine to sixteen single characters.
+	BigClasses bool
 	// Wide draws terminals from a wider alphabet (letters whose case mapping
 	// leaves ASCII, digits, punctuation) and the usual wide ranges; tool world
 	// only, where no input has to match.
@@ -88,6 +95,9 @@ func (c *gctx) lit() *Expr {
 	if c.chance(1, 12) {
 		n = 0
 	}
+	if c.cfg.LongLits && c.chance(1, 3) {
+		n = 4 + c.r.Intn(5)
+	}
 	var b strings.Builder
 	for i := 0; i < n; i++ {
 		b.WriteRune(al[c.r.Intn(len(al))])
@@ -123,6 +133,21 @@ func (c *gctx) class() *Expr {
 		seen := map[rune]bool{}
 		for i := 0; i < n; i++ {
 			ch := al[c.r.Intn(len(al))]
+			if !seen[ch] {
+				seen[ch] = true
+				e.Chars = append(e.Chars, ch)
+			}
+		}
+	}
+	if c.cfg.BigClasses && c.chance(1, 4) {
+		// many individually listed characters (nothing a range would cover)
+		pool := []rune("abcxyzmnpqrstuvwdefghABC019_")
+		seen := map[rune]bool{}
+		for _, ch := range e.Chars {
+			seen[ch] = true
+		}
+		for n := 9 + c.r.Intn(8); n > 0; n-- {
+			ch := pool[c.r.Intn(len(pool))]
 			if !seen[ch] {
 				seen[ch] = true
 				e.Chars = append(e.Chars, ch)
@@ -526,6 +551,9 @@ func generateOnce(r Rand, cfg Config) *Grammar {
 	if cfg.CaseNames {
 		ruleNames = caseRuleNames
 	}
+	if cfg.DigitNames {
+		ruleNames = []string{"Start", "A", "A1", "A11", "A2", "A12", "A1_", "A111"}
+	}
 	if n > len(ruleNames) {
 		n = len(ruleNames)
 	}
@@ -639,8 +667,20 @@ func generateOnce(r Rand, cfg Config) *Grammar {
 			}
 		}
 		g.Rules = append(g.Rules, leaf)
+		if leaf.Expr.Kind == Lit && c.chance(1, 2) {
+			// the leaf only becomes a literal after the rule behind it was inlined
+			g.Rules = append(g.Rules, &Rule{Name: "Leaf2", Expr: leaf.Expr})
+			leaf.Expr = &Expr{Kind: Ref, Name: "Leaf2"}
+			if c.chance(1, 2) {
+				g.Rules = append(g.Rules, &Rule{Name: "Leaf3", Expr: g.Rules[len(g.Rules)-1].Expr})
+				g.Rules[len(g.Rules)-2].Expr = &Expr{Kind: Ref, Name: "Leaf3"}
+			}
+		}
 		// sprinkle references
-		for _, rl := range g.Rules[:len(g.Rules)-1] {
+		for _, rl := range g.Rules {
+			if strings.HasPrefix(rl.Name, "Leaf") {
+				continue
+			}
 			Walk(rl.Expr, func(e *Expr) {
 				if (e.Kind == Lit || e.Kind == Class) && c.chance(1, 3) {
 					*e = Expr{Kind: Ref, Name: "Leaf"}
